@@ -162,7 +162,8 @@ Definition special_table : list (N * list byte) :=
    (10%N, [78; 101; 119; 108; 105; 110; 101]%N);            (* Newline *)
    (13%N, [82; 101; 116; 117; 114; 110]%N);                 (* Return *)
    (9%N, [84; 97; 98]%N);                                   (* Tab *)
-   (127%N, [82; 117; 98; 111; 117; 116]%N)].                (* Rubout *)
+   (127%N, [82; 117; 98; 111; 117; 116]%N);                 (* Rubout *)
+   (0%N, [78; 117; 108; 108]%N)].                           (* Null: repo_fixes C03-12 *)
 Definition special_char (r : N) : option (list byte) :=
   match find (fun e => (fst e =? r)%N) special_table with Some e => Some (snd e) | None => None end.
 (* Character.Append (after #\) and Character.Readably *)
@@ -414,29 +415,31 @@ Fixpoint beqb (a b : list byte) : bool :=
   match a, b with [], [] => true | x :: a', y :: b' => (x =? y)%N && beqb a' b' | _, _ => false end.
 Definition rune_table : list (list byte * N) :=
   [([98; 97; 99; 107; 115; 112; 97; 99; 101]%N, 8%N); ([110; 101; 119; 108; 105; 110; 101]%N, 10%N);
+   ([110; 117; 108]%N, 0%N); ([110; 117; 108; 108]%N, 0%N);
    ([112; 97; 103; 101]%N, 12%N); ([114; 101; 116; 117; 114; 110]%N, 13%N); ([114; 117; 98; 111; 117; 116]%N, 127%N);
    ([115; 112; 97; 99; 101]%N, 32%N); ([116; 97; 98]%N, 9%N)].
 Definition rune_map (name : list byte) : option N :=
   match find (fun e => beqb (fst e) name) rune_table with Some e => Some (snd e) | None => None end.
 Definition hex_value (b : byte) : N := nth (N.to_nat b) hex_table 46%N.
-(* pushChar: None = "'#\...' is not a valid character" *)
+(* pushChar: None = "'#\...' is not a valid character".  A character found by name is returned as it is (the NUL
+   character has the names Nul and Null: repo_fixes C03-12); in the other forms the code 0 means "not valid" *)
 Definition resolve_char (tok : list byte) : option obj :=
-  let c : N :=
-    match tok with
-    | [] => 0%N
-    | [b] => b
-    | b0 :: rest =>
-        match rune_map (map lower tok) with
-        | Some r => r
-        | None =>
+  match tok with
+  | [] => None
+  | [b] => if (b =? 0)%N then None else Some (OChr b)
+  | b0 :: rest =>
+      match rune_map (map lower tok) with
+      | Some r => Some (OChr r)
+      | None =>
+          let c : N :=
             if (b0 =? 117)%N || (b0 =? 85)%N then
               (if (7 <? length tok)%nat then 0%N
                else let rn := fold_left (fun a b => (a * 16 + hex_value b)%N) rest 0%N in
                     if (rn <=? 1114111)%N then rn else 0%N)
-            else fst (decode_rune tok)
-        end
-    end in
-  if (c =? 0)%N then None else Some (OChr c).
+            else fst (decode_rune tok) in
+          if (c =? 0)%N then None else Some (OChr c)
+      end
+  end.
 
 (* calcAndSet / setDim: the nested lists of #nA(...) must be rectangular; lists above the last axis *)
 Fixpoint arr_check (dims : list nat) (rows : list obj) : bool :=
